@@ -87,6 +87,12 @@ func genCase(t *rapid.T) Case {
 	if rapid.IntRange(0, 9).Draw(t, "nocalls") == 0 {
 		n = 0
 	}
+	// now and then more calls in flight than a handler table of the usual size
+	// holds (with the subscriptions and callbacks: eleven to twenty handlers)
+	many := rapid.IntRange(0, 7).Draw(t, "manycalls") == 0
+	if many {
+		n = rapid.IntRange(9, 16).Draw(t, "manyn")
+	}
 	for i := 0; i < n; i++ {
 		sc.Calls = append(sc.Calls, CallSpec{
 			Answered:  rapid.IntRange(0, 3).Draw(t, "answered") > 0,
@@ -97,6 +103,9 @@ func genCase(t *rapid.T) Case {
 	}
 	sc.Subs = rapid.IntRange(0, 2).Draw(t, "subs")
 	sc.Callbacks = rapid.IntRange(0, 2).Draw(t, "callbacks")
+	if many {
+		sc.Callbacks = rapid.IntRange(1, 3).Draw(t, "manycallbacks")
+	}
 	if sc.Subs > 0 {
 		sc.Events = rapid.IntRange(0, 3).Draw(t, "events")
 		if rapid.IntRange(0, 4).Draw(t, "idle") == 0 {
